@@ -16,7 +16,7 @@ PROPS = {
         "run_files": ["Run/CaseC09.v"],
         "imports": ["Lib.Bytes", "Codec.VarInt", "Codec.Desc", "Gen.PacketsGen", "Run.CaseC09"],
         "case_type": "c09case",
-        "checkers": {"RT": "check_c09", "DEC": "check_c09", "VI": "check_c09", "VL": "check_c09", "VR": "check_c09"},
+        "checkers": {"RT": "check_c09", "DEC": "check_c09", "VI": "check_c09", "VL": "check_c09", "VR": "check_c09", "VX": "check_c09"},
         "harness": [{"bin": "codec"}],
         "quick_scale": 1, "thorough_scale": 12, "search_factor": 6,
         "ties": ["Gen/PacketsGen.v regenerated from passage-packets/src/{handshake,status,login,configuration,lib}.rs",
